@@ -115,7 +115,7 @@ Section C03_system.
       (forall x, In x I -> In (b_round b, p, x) (y_pool y) /\ vpart P (b_round b) p x = true) /\
       thr_of P - Z.of_nat (length (F_of P)) <= Z.of_nat (length (filter (honest_sig idx_of F_of P) I)).
   Proof.
-    exact (run_threshold C idx_of vpart recov vrec own_of vrec_unchained recov_sound Hp Hg thr_of F_of F_small gen gen_round).
+    exact (run_threshold C idx_of vpart recov vrec own_of vrec_unchained recov_sound Hp Hg thr_of F_of gen).
   Qed.
 End C03_system.
 Print Assumptions C03_system_threshold.
